@@ -718,14 +718,23 @@ func initStoredGlobals(pkg *ssa.Package) []*ssa.Global {
 	}
 	var out []*ssa.Global
 	seen := map[*ssa.Global]bool{}
-	for _, b := range init.Blocks {
-		for _, in := range b.Instrs {
-			if st, ok := in.(*ssa.Store); ok {
-				if gv, ok := st.Addr.(*ssa.Global); ok && gv.Pkg == pkg && !seen[gv] {
-					seen[gv] = true
-					out = append(out, gv)
+	scan := func(fn *ssa.Function) {
+		for _, b := range fn.Blocks {
+			for _, in := range b.Instrs {
+				if st, ok := in.(*ssa.Store); ok {
+					if gv, ok := st.Addr.(*ssa.Global); ok && gv.Pkg == pkg && !seen[gv] {
+						seen[gv] = true
+						out = append(out, gv)
+					}
 				}
 			}
+		}
+	}
+	scan(init)
+	// the source-level init functions (init#1, init#2, ...) the initialiser calls
+	for name, m := range pkg.Members {
+		if fn, ok := m.(*ssa.Function); ok && strings.HasPrefix(name, "init#") {
+			scan(fn)
 		}
 	}
 	return out
